@@ -152,8 +152,8 @@ def _membership_only(fn, call, depth=0) -> bool:
     value -- never ordered, formatted, returned or stored in an attribute.  One level of local naming is followed."""
     node = call
     par = getattr(node, "_parent", None)
-    while isinstance(par, ast.IfExp) and node is not par.test:
-        node, par = par, getattr(par, "_parent", None)
+    while (isinstance(par, ast.IfExp) and node is not par.test) or isinstance(par, ast.Tuple):
+        node, par = par, getattr(par, "_parent", None)      # a tuple key containing the id is still a key
     if isinstance(par, ast.Call) and isinstance(par.func, ast.Attribute) and par.func.attr in ("add", "discard", "remove") and node in par.args:
         return True
     if isinstance(par, ast.Compare) and all(isinstance(o, (ast.In, ast.NotIn, ast.Eq, ast.NotEq)) for o in par.ops):
